@@ -69,16 +69,24 @@ func (r *R) Gen(ctx sdk.Context, g *hx.Rng) string {
 	h := ctx.BlockHeight()
 	ps := r.pools(ctx)
 	fs := r.farmers(ctx)
+	var live []*poolView // started and not past their end
+	var future []*poolView
+	for i := range ps {
+		if ps[i].P.EndHeight >= h && ps[i].P.StartHeight <= h {
+			live = append(live, &ps[i])
+		} else if ps[i].P.StartHeight > h {
+			future = append(future, &ps[i])
+		}
+	}
 	pickPool := func() *poolView {
 		if len(ps) == 0 {
 			return nil
 		}
-		// prefer pools that have not ended
-		for try := 0; try < 3; try++ {
-			p := &ps[g.Intn(len(ps))]
-			if p.P.EndHeight >= h || try == 2 {
-				return p
-			}
+		switch {
+		case len(live) > 0 && !g.Chance(1, 8):
+			return live[g.Intn(len(live))]
+		case len(future) > 0 && g.Chance(1, 2):
+			return future[g.Intn(len(future))]
 		}
 		return &ps[g.Intn(len(ps))]
 	}
@@ -89,14 +97,17 @@ func (r *R) Gen(ctx sdk.Context, g *hx.Rng) string {
 		return p.P.Id
 	}
 	kind := g.Pick(7, 24, 13, 11, 9, 3, 26)
-	if len(ps) == 0 && g.Chance(3, 4) {
+	if len(live) == 0 && g.Chance(2, 3) {
 		kind = 0
+		if len(future) > 0 && g.Chance(1, 2) {
+			kind = 6
+		}
 	}
 	switch kind {
 	case 0: // create_pool
-		lpt := []string{"lpt-1", "lpt-1", "lpt-1", "lpt-1", "lpt-2", "lpt-2", "lpt-9", "btc"}[g.Intn(8)]
+		lpt := []string{"lpt-1", "lpt-1", "lpt-1", "lpt-1", "lpt-1", "lpt-1", "lpt-1", "lpt-2", "lpt-2", "lpt-2", "lpt-9", "btc"}[g.Intn(12)]
 		var start int64
-		switch g.Pick(10, 7, 1, 1) {
+		switch g.Pick(20, 14, 1, 1) {
 		case 0:
 			start = h
 		case 1:
@@ -104,20 +115,20 @@ func (r *R) Gen(ctx sdk.Context, g *hx.Rng) string {
 		case 2:
 			start = h - 1
 		default:
-			start = []int64{9223372036854775807, 9223372036854775800, 4611686018427387904, h + 1000}[g.Intn(4)]
+			start = []int64{9223372036854775807, 4611686018427387904, h + 1000, h + 30}[g.Intn(4)]
 		}
-		k := []int{1, 1, 1, 1, 1, 2, 2, 2, 3}[g.Intn(9)]
+		k := []int{1, 1, 1, 1, 1, 1, 2, 2, 2, 2, 2, 3}[g.Intn(12)]
 		ds := sortedSubset(g, rewardDenoms, k)
 		rpb := map[string]sdkmath.Int{}
 		tot := map[string]sdkmath.Int{}
 		for _, d := range ds {
 			rpb[d] = smallAmt(g)
-			blocks := g.Range(1, 14)
+			blocks := g.Range(1, 24)
 			t := rpb[d].MulRaw(blocks)
 			if g.Chance(1, 2) {
 				t = t.Add(sdkmath.NewInt(g.Range(0, 5)))
 			}
-			switch g.Intn(30) {
+			switch g.Intn(75) {
 			case 0:
 				t = rpb[d].SubRaw(1) // total < per block
 			case 1:
@@ -131,7 +142,7 @@ func (r *R) Gen(ctx sdk.Context, g *hx.Rng) string {
 		if g.Chance(1, 30) && len(ds) > 1 {
 			rds = ds[:1] // lengths differ
 		}
-		sender := []string{"A0", "A0", "A1", "A2", "A4"}[g.Intn(5)]
+		sender := []string{"A0", "A0", "A0", "A0", "A1", "A1", "A2", "A2", "A3", "A4"}[g.Intn(10)]
 		desc := []string{"-", "d1", "usdt/iris"}[g.Intn(3)]
 		if g.Chance(1, 60) {
 			desc = strings.Repeat("x", 281)
@@ -346,13 +357,15 @@ func Run(env *hx.Env, rn *R, o hx.Opts) {
 		emit := func(tag string) func(l string) sdk.Context {
 			return func(l string) sdk.Context {
 				var ob string
-				pre := ctx
+				f := strings.Fields(l)
+				keys := rn.branches(ctx, f)
 				ctx, ob = rn.Exec(ctx, l)
 				out.Op(l, ob)
-				f := strings.Fields(l)
 				res := strings.SplitN(ob, " ", 2)[0]
 				out.Count(tag + f[1] + "." + res)
-				rn.branches(pre, f, res, out)
+				for _, k := range keys {
+					out.Count(k + "." + res)
+				}
 				return ctx
 			}
 		}
@@ -365,13 +378,13 @@ func Run(env *hx.Env, rn *R, o hx.Opts) {
 	}
 }
 
-// branches counts the boundary situations the generators are meant to reach.
-func (r *R) branches(pre sdk.Context, f []string, res string, out *hx.Out) {
+// branches names the boundary situations an operation is in (evaluated before it runs).
+func (r *R) branches(pre sdk.Context, f []string) []string {
 	a := hx.Args(f[2:])
 	h := pre.BlockHeight()
 	p, ok := r.env.Farm.GetPool(pre, a["pool"])
 	if !ok {
-		return
+		return nil
 	}
 	pos := "before_end"
 	switch {
@@ -379,16 +392,22 @@ func (r *R) branches(pre sdk.Context, f []string, res string, out *hx.Out) {
 		pos = "after_end"
 	case h == p.EndHeight:
 		pos = "at_end"
+		if r.env.Farm.Expired(pre, p) {
+			pos = "at_end_destroyed"
+		}
 	case h < p.StartHeight:
 		pos = "before_start"
+	case h == p.StartHeight:
+		pos = "at_start"
 	}
-	out.Count(fmt.Sprintf("branch.%s.%s.%s", f[1], pos, res))
+	keys := []string{fmt.Sprintf("branch.%s.%s", f[1], pos)}
 	if p.LastHeightDistrRewards == h && (f[1] == "stake" || f[1] == "unstake" || f[1] == "harvest") {
-		out.Count("branch.same_block_interleaving." + res)
+		keys = append(keys, "branch.same_block_interleaving")
 	}
 	if len(r.env.Farm.GetRewardRules(pre, p.Id)) > 1 {
-		out.Count("branch.multi_denom." + f[1] + "." + res)
+		keys = append(keys, "branch.multi_denom."+f[1])
 	}
+	return keys
 }
 
 var _ = farmtypes.ModuleName
